@@ -114,6 +114,40 @@ pub fn run_pty_case(case: &Case, env: &Env, long_sleep: bool) -> CaseOut {
                     break;
                 }
             }
+            // the rows of every progress frame (between the bar line and the cursor-up sequence that follows it) are task
+            // messages and last-output lines: each fits the terminal width in bytes and is cut on a character boundary
+            {
+                let bytes = &shown;
+                let mut i = 0;
+                while let Some(pos) = bytes[i..].windows(7).position(|w| w == b" done, ") {
+                    let at = i + pos;
+                    // start of the bar line
+                    let ls = bytes[..at].iter().rposition(|&c| c == b'\n' || c == b'J').map(|p| p + 1).unwrap_or(0);
+                    // the frame ends at ESC [ <n> A
+                    let Some(endrel) = bytes[at..].windows(2).position(|w| w == b"\x1b[") else { break };
+                    let frame = &bytes[ls..at + endrel];
+                    let rows: Vec<&[u8]> = frame.split(|&c| c == b'\n').collect();
+                    for row in rows.iter().skip(1) {
+                        let row: Vec<u8> = row.iter().copied().filter(|&c| c != b'\r').collect();
+                        if row.is_empty() || row.starts_with(b"...and ") {
+                            continue;
+                        }
+                        let txt = String::from_utf8_lossy(&row).into_owned();
+                        if row.len() > cols as usize {
+                            out.viols.push(Viol::new("C20", "pty-row-too-wide", format!("a status row is {} bytes on a {}-column terminal: {:?}", row.len(), cols, txt)));
+                        } else if txt.contains('\u{fffd}') {
+                            out.viols.push(Viol::new("C20", "pty-row-cut-inside-character", format!("a status row was cut inside a character: {:?}", txt)));
+                        }
+                        if !out.viols.is_empty() {
+                            break;
+                        }
+                    }
+                    if !out.viols.is_empty() {
+                        break;
+                    }
+                    i = at + 7;
+                }
+            }
             // C19 through the real display: every `a/b done` line shows b = number of (non-phony) wanted steps and a <= b
             for line in text.split(|c| c == '\n' || c == '\r') {
                 if let Some(pos) = line.find(" done, ") {
